@@ -1,7 +1,7 @@
 (* C11 - line-search steps are feasible, within budget and strictly downhill.
    Restates lemmas about [line_search] of the driver model (coq/Model/Driver.v, hand-written from linesearch.py). *)
 From Coq Require Import List ZArith Bool String Lia Floats.PrimFloat.
-From LBFGSB Require Generated.MaxStep Model.NumpyOps.
+From LBFGSB Require Generated.MaxStep Generated.Base Model.NumpyOps.
 From LBFGSB Require Import Base.Res Base.Hoare Base.FloatOrd Model.SF Model.FloatVec Model.Driver Generated.Consts
   Proofs.SFProofs Proofs.SFPoints Proofs.DriverBox Proofs.DriverReport Proofs.DriverValues Proofs.DriverLineSearch
   Model.Dcsrch Model.DriverDcs Proofs.DcsrchProofs Proofs.DriverDcsrch Proofs.FloatZero Proofs.DriverStepPositive.
@@ -107,6 +107,20 @@ Proof.
   intros x d lb ub cap Hd Hl Hu. unfold LBFGSB.Generated.MaxStep.max_allowed_steplength, maxstep. cbv zeta.
   rewrite (max_step_ratios_from_source x d lb ub Hd Hl Hu). destruct (step_ratios x d lb ub); reflexivity.
 Qed.
+
+(* the trial points: the three expressions np.clip(x0 + alpha * d, lb, ub) of line_search (and the iterate update of main.py),
+   translated from the source on every run, are the clipped point the model evaluates (clause 1 rests on the clip being there) *)
+Theorem C11_trial_point_from_source : forall x a d lb ub,
+  LBFGSB.Generated.Base.projected_point x a d lb ub = vclip (vaxpy x a d) lb ub.
+Proof.
+  intros. unfold LBFGSB.Generated.Base.projected_point. f_equal.
+  revert d. induction x as [|xi x IH]; intros d; destruct d as [|di d]; cbn; try reflexivity. unfold vadd, vaxpy in *. cbn. f_equal. apply IH.
+Qed.
+Theorem C11_trial_point_sites_from_source :
+  LBFGSB.Generated.Base.projection_sites_src =
+  ["main: np.clip(x + steplength * d, lb, ub)"; "linesearch: np.clip(x0 + alpha * d, lb, ub)";
+   "linesearch: np.clip(x0 + steplength * d, lb, ub)"; "linesearch: np.clip(x0 + alpha * d, lb, ub)"]%string.
+Proof. reflexivity. Qed.
 
 (* the first-step rule, the iteration-0 cap and the arguments handed to DCSRCH are those of the source *)
 Theorem C11_source_pins :
